@@ -265,8 +265,16 @@ def read_docs(rng, tier, ser_texts):
     fixed = [b"", b"null", b" ", b"123", b"123 ", b"[1,2", b"{\"a\":1} trailing", b"\xff\xfe", b"[1,2]\x00[3]", b"tru",
              b"\"abc", b"{\"a\":{\"b\":[1,2,{\"c\":null}]}}", b"[]", b"{}", b"-0.5e3", b"nul", b"[1,,2]", b"\x00"]
     docs += fixed
+    # decorations a "helpful" reader might strip or tolerate although the parser proper does not: byte-order marks,
+    # an XSSI guard, a shebang line, NULs, a final Ctrl-Z - reading from a descriptor must treat them exactly as the
+    # in-memory parse of the same bytes does
+    BOM = b"\xef\xbb\xbf"
+    docs += [BOM, BOM[:2], BOM + b"[1]", BOM + b"{}", BOM + b" null", BOM + BOM + b"1", b"\xfe\xff[1]", b"\xff\xfe[\x001\x00]\x00",
+             b")]}'\n[1]", b"#!x\n[1]", b"[1]\x1a", b"\x00[1]", b"\r\n[1]\r\n", b"[1]" + BOM]
     for t in ser_texts:
         docs.append(t)
+        if t and rng.chance(0.08):
+            docs.append(rng.choice([BOM, b"\xfe\xff", b")]}'\n", b"\x00"]) + t)
         if t and rng.chance(0.3):
             docs.append(t[:rng.randrange(0, len(t))])
         if rng.chance(0.15):
